@@ -157,6 +157,15 @@ Definition sync_range (n : node) : node :=
   | None => n
   end.
 
+(* NodeRecordStore::cleanup_irrelevant_records past its size threshold: every record at distance >= the
+   store's range is removed (records_by_distance.range(responsible_distance..)); nothing else changes -- in
+   particular neither range nor anything of the fetcher *)
+Definition cleanup (n : node) : node :=
+  match store_range n with
+  | Some r => set_held n (filter (fun kc => negb (r <=? D (self n) (fst kc))) (held n))
+  | None => n
+  end.
+
 (* ---- what a node advertises ---- *)
 Definition advert (n : node) : list (key * rtype) :=
   map (fun kc => (fst kc, type_of (snd kc))) (held n).
@@ -319,7 +328,9 @@ Inductive op :=
 | ODeliver (m : msg)                                       (* an undelivered message is delivered *)
 | ODrop (m : msg)                                          (* ... is lost *)
 | OSetTable (p : peer) (l : list (peer * N))               (* the routing table of p changed *)
-| OSetRange (p : peer) (r : N).                            (* the record store's range of p is set *)
+| OSetRange (p : peer) (r : N)                             (* the record store's range of p is set *)
+| OCleanup (p : peer).                                     (* cleanup_irrelevant_records runs at p (store above
+                                                              MAX_RECORDS_COUNT/10): records at distance >= range go *)
 
 Definition step (s : sys) (o : op) : sys :=
   match o with
@@ -344,6 +355,11 @@ Definition step (s : sys) (o : op) : sys :=
   | OSetRange p r =>
       match get_node p (nodes s) with
       | Some n => mkSys (put_node (set_store_range n (Some r)) (nodes s)) (pool s)
+      | None => s
+      end
+  | OCleanup p =>
+      match get_node p (nodes s) with
+      | Some n => mkSys (put_node (cleanup n) (nodes s)) (pool s)
       | None => s
       end
   end.
